@@ -24,6 +24,12 @@ var c08Unders = []enumUnder{
 	{"uint64-big", space.B("uint64"), []string{"18446744073709551615", "18446744073709551614", "1"}, []string{"1", "2", "3"}},
 	{"string", space.B("string"), []string{`"a"`, `"b"`, `"zz"`}, []string{`"x"`, `"y"`, `"z"`}},
 	{"float64", space.B("float64"), []string{"1", "1.5", "2"}, []string{"2", "1", "1.5"}},
+	// float members that differ only beyond the tenth significant digit
+	{"float64-close", space.B("float64"), []string{"3.14159265358979323846", "3.14159265359", "1"}, []string{"2", "1", "1.5"}},
+	// negative values and the zero value among the source members; an empty-string source member
+	{"int-negative", space.B("int"), []string{"-1", "0", "5"}, []string{"-5", "7", "1"}},
+	{"string-empty-source", space.B("string"), []string{`""`, `"b"`, `"zz"`}, []string{`"x"`, `"y"`, `"z"`}},
+	{"int8-bounds", space.B("int8"), []string{"-128", "127", "0"}, []string{"1", "2", "3"}},
 	// target members whose value is the zero value (an ignored source member leaves the zero value too, yet the two are different mappings)
 	{"int-zero-target", space.B("int"), []string{"1", "2", "3"}, []string{"0", "1", "2"}},
 	{"string-empty-target", space.B("string"), []string{`"a"`, `"b"`, `"zz"`}, []string{`""`, `"y"`, `"z"`}},
